@@ -419,6 +419,61 @@ func init() {
 			e.Count("cache")
 			e.Distinct(fmt.Sprintf("cache/%d", G))
 		}
+		// (c2) a COLD cache: every goroutine parses and executes the same, never seen, large input at the
+		// same moment (start barrier); each must get the output a lone Render gives, and a template
+		// that one goroutine is executing must not be written by another (race detector)
+		{
+			rounds := 4
+			if e.Thorough() {
+				rounds = 20
+			}
+			for round := 0; round < rounds; round++ {
+				for _, G := range []int{4, 16} {
+					var sb, want strings.Builder
+					fmt.Fprintf(&sb, "<%% let r = %d %%>", round*100+G)
+					for i := 0; i < 400; i++ {
+						fmt.Fprintf(&sb, "<p><%%= r + %d %%>|<%%= if (n == %d) { %%>y<%% } else { %%>n<%% } %%></p>\n", i, i)
+						fmt.Fprintf(&want, "<p>%d|%s</p>\n", round*100+G+i, map[bool]string{true: "y", false: "n"}[i == 7])
+					}
+					input := sb.String()
+					outs := make([]string, G)
+					errs := make([]error, G)
+					start := make(chan struct{})
+					var wg sync.WaitGroup
+					for g := 0; g < G; g++ {
+						wg.Add(1)
+						go func(g int) {
+							defer wg.Done()
+							defer func() {
+								if r := recover(); r != nil {
+									errs[g] = fmt.Errorf("panic: %v", r)
+								}
+							}()
+							<-start
+							t, err := plush.Parse(input)
+							if err != nil {
+								errs[g] = err
+								return
+							}
+							ctx := plush.NewContext()
+							ctx.Set("n", 7)
+							outs[g], errs[g] = t.Exec(ctx)
+						}(g)
+					}
+					close(start)
+					c14wait(e, &wg)
+					e.rep.Evaluations += G
+					e.Count("cold-cache")
+					e.Distinct(fmt.Sprintf("cold/%d/%d", round, G))
+					for g := 0; g < G; g++ {
+						if errs[g] != nil || outs[g] != want.String() {
+							e.Violate("c14-output-differs", fmt.Sprintf("cold cache, goroutine %d of %d: Parse+Exec of one new input gave error %v / an output of %d bytes that differs from the lone rendering (%d bytes)", g, G, errs[g], len(outs[g]), want.Len()), map[string]interface{}{"goroutines": G, "round": round})
+							break
+						}
+					}
+				}
+			}
+		}
 		plush.CacheEnabled = false
 	})
 }
